@@ -42,6 +42,7 @@ def sh(cmd, cwd=None, env=None, timeout=None, check=True):
 # builds
 
 _built = {}
+_meta_seq = 0
 _build_lock = threading.Lock()
 
 
@@ -105,7 +106,11 @@ def _parse_tuple(body):
 def run_tlc(module, cfg, env, wd, workers=8, timeout=1500, heap="4g", simulate=None, extra=None, dfs=False):
     """Run TLC on spec/<module>.tla with spec/<cfg>; returns dict(out, viol, known, tally, states, distinct)."""
     ensure_java()
-    meta = os.path.join(wd, "tlc-meta-%s-%d" % (module, int(time.time() * 1000) % 100000000))
+    global _meta_seq
+    with _build_lock:
+        _meta_seq += 1
+        seq = _meta_seq
+    meta = os.path.join(wd, "tlc-meta-%s-%d-%d" % (module, os.getpid(), seq))
     jopts = "-Xss256m -Xmx%s -XX:+UseParallelGC" % heap
     if dfs:
         jopts += " -Dtlc2.tool.queue.IStateQueue=StateDeque"
